@@ -85,7 +85,12 @@ def r1_case_fold_before_keying(ctx: Ctx) -> None:
     st = [n for n in walk_no_nested(on.node) if isinstance(n, ast.Assign) and unparse(n.targets[0]) == "self.opcode"]
     ctx.check(len(st) == 1 and unparse(st[0].value) == f"{on.params()[1]}.lower()", "OpcodeNode.__init__:mnemonic", "the mnemonic is lower-cased before it keys the opcode table")
     ge = ctx.repo.func("a816.parse.nodes", "OpcodeNode._get_emitter")
-    ctx.check(any(unparse(n) == "snes_opcode_table[self.opcode]" for n in ast.walk(ge.node)), "OpcodeNode._get_emitter:key", "the table is keyed by the folded mnemonic")
+    keyed = any(unparse(n) in ("snes_opcode_table[self.opcode]", "snes_opcode_table.get(self.opcode)") for n in ast.walk(ge.node))
+    other_keys = [unparse(n) for n in ast.walk(ge.node) if (isinstance(n, ast.Subscript) and unparse(n.value) == "snes_opcode_table") or
+                  (isinstance(n, ast.Call) and (call_name(n) or "") == "snes_opcode_table.get")]
+    if not keyed and not other_keys:
+        raise AnalysisError("OpcodeNode._get_emitter: no lookup in snes_opcode_table found; not modelled")
+    ctx.check(keyed, "OpcodeNode._get_emitter:key", f"the table is keyed by the folded mnemonic self.opcode; lookups found {other_keys}")
     isz = ctx.repo.func(PST, "is_value_size")
     lits = [n for n in ast.walk(isz.node) if isinstance(n, (ast.List, ast.Tuple, ast.Set))]
     ok = len(lits) == 1 and all((const_str(e) or "X").islower() for e in lits[0].elts)
